@@ -82,7 +82,7 @@ class StateMachine(metaclass=StateMachineMetaclass):
         self._callbacks = CallbacksRegistry()
         self._states_for_instance: Dict[State, State] = {}
 
-        self._listeners: Dict[Any, Any] = {}
+        self._listeners: List[Any] = []
         """Listeners that provides attributes to be used as callbacks."""
 
         if self._abstract:
@@ -142,11 +142,11 @@ class StateMachine(metaclass=StateMachineMetaclass):
         self._callbacks = CallbacksRegistry()
         self._states_for_instance: Dict[State, State] = {}
 
-        self._listeners: Dict[Any, Any] = {}
+        self._listeners: List[Any] = []
 
         # listeners take part in the resolution as in the constructor: a callback name may be
         # provided by a listener only
-        self._register_callbacks(list(listeners.keys()))
+        self._register_callbacks(list(listeners))
         self._engine = self._get_engine(rtc)
         self._engine.start()
 
@@ -186,7 +186,7 @@ class StateMachine(metaclass=StateMachineMetaclass):
         return self
 
     def _register_callbacks(self, listeners: List[object]):
-        self._listeners.update({listener: None for listener in listeners})
+        self._remember_listeners(listeners)
         self._add_listener(
             Listeners.from_listeners(
                 (
@@ -208,6 +208,12 @@ class StateMachine(metaclass=StateMachineMetaclass):
 
         self._callbacks.async_or_sync()
 
+    def _remember_listeners(self, listeners):
+        # by identity: a listener may be unhashable or compare equal to another one
+        for listener in listeners:
+            if not any(listener is known for known in self._listeners):
+                self._listeners.append(listener)
+
     def add_observer(self, *observers):
         """Add a listener."""
         warnings.warn(
@@ -227,7 +233,7 @@ class StateMachine(metaclass=StateMachineMetaclass):
 
             :ref:`listeners`.
         """
-        self._listeners.update({o: None for o in listeners})
+        self._remember_listeners(listeners)
         return self._add_listener(
             Listeners.from_listeners(Listener.from_obj(o) for o in listeners),
             allowed_references=SPECS_SAFE,
